@@ -1337,14 +1337,14 @@ func init() {
 			},
 			&engine.Enum[c08LongCase]{
 				Name: "reencode-long-structures",
-				Rule: "the long structures of C08 (every section_length in the windows around 255/256 and each multiple of 1024; component-mode splice_insert with up to 60 timed / 255 immediate components x descriptor loop lengths 0..300 swept byte by byte, so that splice_command_length crosses 255/256): decode -> UpdateData() -> byte-identical, oracle of reencode-fields",
+				Rule: "the long structures of C08 (every section_length in the windows around 255/256 and each multiple of 1024; component-mode splice_insert with up to 60 and with 168..170, 200, 255 timed / up to 255 immediate components x descriptor loop lengths 0..300 swept byte by byte, so that splice_command_length crosses 255/256 and 1023/1024): decode -> UpdateData() -> byte-identical, oracle of reencode-fields",
 				Gen: func(r *engine.Run, emit func(c08LongCase)) {
 					add := func(a, b int) {
 						for t := a; t <= b; t += 16 {
 							emit(c08LongCase{Kind: "section-length", From: t, To: min(t+15, b)})
 						}
 					}
-					timed := []int{0, 1, 3, 41, 42, 43, 60}
+					timed := []int{0, 1, 3, 41, 42, 43, 60, 168, 169, 170, 200, 255} // 169 timed components: splice_command_length passes 1023
 					imm := []int{0, 3, 245, 254, 255}
 					if r.Thorough() {
 						add(40, 4093)
